@@ -62,4 +62,43 @@ pub fn run_prop(ctx: &Ctx, sink: &mut Sink) {
         }
         let _ = std::fs::remove_dir_all(&sc.dir);
     }
+    // ---- starting points whose names are nothing but blanks (and other names a reader may mangle):
+    // the only way a whole path can be blank-only, empty-looking or start with a quote
+    let rounds = if ctx.thorough { 200 } else { 24 };
+    for _ in 0..rounds {
+        use std::os::unix::ffi::OsStrExt;
+        let dir = ctx.scratch("blank").join("pad").join("w");
+        std::fs::create_dir_all(&dir).unwrap();
+        let cands: Vec<&[u8]> = vec![b" ", b"\t", b"\n", b" \n\t ", b"  ", b"'", b"\"q", b"\\", b"x", b"a b", b"\x0b", b"\r"];
+        let mut roots: Vec<(Vec<u8>, String)> = vec![];
+        for _ in 0..rng.range(1, 4) {
+            let nm = *rng.pick(&cands);
+            let path = dir.join(std::ffi::OsStr::from_bytes(nm));
+            if std::fs::symlink_metadata(&path).is_err() {
+                if rng.chance(1, 2) {
+                    std::fs::create_dir(&path).unwrap();
+                    std::fs::write(path.join("f"), b"").unwrap();
+                    if rng.chance(1, 2) { std::fs::write(path.join(" "), b"").unwrap(); }
+                } else {
+                    std::fs::write(&path, b"").unwrap();
+                }
+            }
+            if roots.iter().all(|(n, _)| n != nm) { roots.push((nm.to_vec(), String::new())); }
+        }
+        for r in roots.iter_mut() {
+            r.1 = crate::world::observe_root(&r.0, &dir.join(std::ffi::OsStr::from_bytes(&r.0)));
+        }
+        let toks: Vec<String> = vec!["sorted".into(), "print0".into()];
+        let mut args: Vec<String> = vec![];
+        for (sp, _) in &roots { args.push(String::from_utf8(sp.clone()).unwrap()); }
+        args.extend(argv_of(&toks, &mut rng));
+        let (fst, xst, inv) = run_pipe0(ctx, &args, &dir);
+        let mut delivered: Vec<Vec<u8>> = vec![];
+        for i in &inv { delivered.extend(i.argv.iter().skip(1).cloned()); }
+        let worlds: Vec<String> = roots.iter().map(|(_, w)| w.clone()).collect();
+        sink.push(Case { req: format!("pipe0 P {} {}", worlds.join(";"), toks.join(",")), imp: format!("fst={fst} xst={xst} args={}", hex_list(&delivered)), tags: vec!["pipe", "blank-start", "nt"] });
+        let (req, imp) = run_case(ctx, &dir, "P", &roots, &toks, &mut rng, true);
+        sink.push(Case { req, imp, tags: vec!["print", "blank-start", "nt"] });
+        let _ = std::fs::remove_dir_all(&dir);
+    }
 }
